@@ -56,6 +56,9 @@ let rec parse_op (s : string) : op =
   | ["<<b"; x] -> OShiftBool (b x)
   | ["++"] -> OAppendCh (n_of_int 32)
   | ["--"] -> OTruncChars (n_of_int 1)
+  | ["dist"; a; m] -> OGetDistance (sarg a, num m)
+  | ["ncmp"; a] -> ONumCmp (sarg a, false)
+  | ["ncmpi"; a] -> ONumCmp (sarg a, true)
   | ["eqh"; ch] -> OEqualsCh (num ch)
   | ["eqhi"; ch] -> OEqualsChI (num ch)
   | ["swhi"; ch] -> OStartsChI (num ch)
@@ -64,6 +67,7 @@ let rec parse_op (s : string) : op =
   | ["waw"; a; sep] -> OWithWord (nolimit, sarg a, bytes_of_hex sep)
   | ["wpw"; a; sep] -> OWithWord (N0, sarg a, bytes_of_hex sep)
   | ["ind"; n; ch] -> OIndented (num n, num ch)
+  | ["esc"; x; ch] -> OEscaped (bytes_of_hex x, num ch)
   | ["wsfh"; ch] -> OWithSuffixCh (num ch)
   | ["wpfh"; ch] -> OWithPrefixCh (num ch)
   | ["wosfi"; a; m] -> OWithoutSuffixSI (sarg a, num m)
